@@ -27,7 +27,7 @@ BaseA == [Base(4, 3, 2, 2, 3, 10) EXCEPT !.k = 4, !.nasserts = 6]
 
 \* base statements with an auxiliary segment: running sum and product columns with all auxiliary assertion templates; the
 \* smallest trace with a Lagrange kernel column; fewer random elements than columns, product column first, two exemptions
-BaseX1 == [Base(4, 2, 2, 2, 3, 10) EXCEPT !.auxd = <<1, 2>>, !.auxr = 2, !.nauxa = 3]
+BaseX1 == [Base(4, 2, 2, 2, 3, 10) EXCEPT !.auxd = <<1, 2>>, !.auxr = 2, !.nauxa = 3, !.nasserts = 7]
 BaseX2 == [Base(3, 1, 1, 2, 0, 3) EXCEPT !.auxd = <<1>>, !.auxr = 1, !.lag = 1, !.nauxa = 2]
 BaseX3 == [Base(5, 3, 3, 2, 3, 20) EXCEPT !.auxd = <<2, 1, 1>>, !.auxr = 1, !.lag = 1, !.nauxa = 3, !.k = 2]
 
@@ -47,7 +47,7 @@ Variants(s) ==
     \cup {[s EXCEPT !.pcol = [i \in 1..s.width |-> IF i = 1 THEN 1 ELSE 0], !.cycles = <<x>>] : x \in {2, 4, 8, 2 ^ s.ln}}
     \cup {[s EXCEPT !.pcol = [i \in 1..s.width |-> IF i = s.width THEN 1 ELSE 0], !.cycles = <<x>>] : x \in {2, 2 ^ (s.ln - 1)}}
     \cup {[s EXCEPT !.k = x] : x \in {1, 2, 3, 2 ^ s.ln \div 2, 2 ^ s.ln \div 2 + 1, MaxExemptions(s)}}
-    \cup {[s EXCEPT !.nasserts = x] : x \in {1, 2, 3, 5, 6}}
+    \cup {[s EXCEPT !.nasserts = x] : x \in {1, 2, 3, 5, 6, 7}}
     \cup {[s EXCEPT !.q = x] : x \in {1, 2, 27, 64, 128, 254, 255}}
     \cup {[s EXCEPT !.lb = x] : x \in 1..7}
     \cup {[s EXCEPT !.grind = x] : x \in {0, 1, 8, 16}}
